@@ -22,7 +22,8 @@ ASSUMPTIONS = ['discrete outcomes whose statistic lies within 1e-9 (relative) of
 
 @st.composite
 def _spec(draw, big):
-  spec = draw(st.one_of(G.search_spec(max_geos=big, min_geos=3, constraint_p=0.3, max_dates=40),
+  spec = draw(st.one_of(G.search_spec(max_geos=big, min_geos=4, constraint_p=0.2, max_dates=30).map(G.shared_capped),
+                        G.search_spec(max_geos=big, min_geos=3, constraint_p=0.3, max_dates=40),
                         G.search_spec(max_geos=big, min_geos=3, constraint_p=0.3, elig_style='mixed', max_dates=40)))
   p = spec['params']
   if draw(st.integers(0, 3)) > 0:
